@@ -17,8 +17,14 @@ META = {
             "is evaluated on the real code's answers. The panic-message part (file:line:col of the panicking call) is explored with "
             "generated programs that panic at a generator-known place, not proved.",
     "note": "Trusted: Lean kernel; encoding/json (ToJson/FromJson are Go's library over the Write/Read structure, exercised but not modelled); "
-            "the hand-written model's tie to position.go/serialize.go is differential. //line directives (File.infos) are outside the model "
-            "(no Wa front end adds them for SetLinesForContent users; the harness checks Infos stays empty). 64-bit overflow of base+size is "
+            "the hand-written model's tie to position.go/serialize.go is differential. //line infos (File.infos, AddLineColumnInfo, the adjusted branch of unpack) ARE in the model "
+            "and in the serialisable structure: read_write_id is proved over name, base, size, line table and info table, for adjusted and "
+            "unadjusted positions, and for reloading into an existing FileSet (readInto); the `last` cache is the cached File object by value, "
+            "the lookup theorems assume CacheOK (cache holds one of the current files), which newFileSet/addFile/setContent/addLineInfo/"
+            "lookups/Read are proved to maintain (stale_cache_answers_wrong shows it is necessary). The MEANING of a //line directive "
+            "(renumbering relative to the directive's line) is transcribed, not specified by a theorem: it is decided by the correspondence "
+            "and by an independent python statement of go/token's documented semantics; the scanner's parsing of directive comments is "
+            "exercised (real scanner vs generator-known directives), not modelled. 64-bit overflow of base+size is "
             "not modelled. File names restricted to valid UTF-8 (JSON replaces invalid bytes; probed and reported as a note only). "
             "The end-of-file position (offset = size) and the empty content do NOT follow the newline-counting rule in model and code "
             "(line table only holds offsets < size): the exact behaviour is proved (position_eof, eof_statement_false) and the deviation is a recorded finding. "
@@ -26,7 +32,8 @@ META = {
     "technique": "Lean 4 proof over hand-written model + differential correspondence (exhaustive offsets per file) + independent oracle; exploration for panic messages",
 }
 REQUIRED = ["lines_table", "searchInts_spec", "position_correct", "position_eof", "fileset_lookup_correct",
-            "fileset_lookup_none", "read_write_id", "fileset_position_correct"]
+            "fileset_lookup_none", "read_write_id", "fileset_position_correct", "read_cache_invariant", "position_keeps_cache_ok",
+            "fileset_inv_addLineInfo", "stale_cache_answers_wrong"]
 
 NAMES = ["a.wa", "b.wa", "main.wa", "x/y.wa", "pkg/z_1.wa", "m.wz", "t.wa.go", "q"]
 
@@ -214,6 +221,197 @@ def gen_R(ctx, ops, meta):
         ops.append("R %s %s %s" % (hx(js.encode()), st, ",".join(map(str, qs))))
         meta.append(("R", mode, files, qs))
 
+
+
+# --------------------------------------------------------------------------- histories on ONE FileSet object (H ops)
+INFO_NAMES = ["template.wa", "gen_1.wa", "y.wa.go", "t2.wz", "m.tmpl"]
+HNAMES = ["a.wa", "b.wa", "main.wa", "m.wz", "t.wa.go", "q"]
+
+
+def table_line(content, off):
+    """index+1 of the last line start <= off per the line table (content None: AddFile's table {0})"""
+    ls = [0] if content is None else ref_lines(content)
+    k = sum(1 for x in ls if x <= off)
+    return k, (ls[k - 1] if k else 0)
+
+
+def raw_pos(content, off):
+    k, st = table_line(content, off)
+    return (k, off - st + 1) if k else (0, 0)
+
+
+def adjusted_pos(name, content, infos, off):
+    """go/token's documented //line semantics, written independently: the last directive registered at or before
+    the offset renames the file and renumbers lines relative to the line the directive took effect on; the column
+    is unknown (0) if the directive has none, relative to the directive on its own line, raw otherwise"""
+    ln, col = raw_pos(content, off)
+    cand = [i for i in infos if i[0] <= off]
+    if not cand:
+        return name, ln, col
+    o, fn, l, c = cand[-1]
+    k, _ = table_line(content, o)
+    if not k:
+        return fn, ln, col
+    d = ln - k
+    if c == 0:
+        col = 0
+    elif d == 0:
+        col = c + (off - o)
+    return fn, l + d, col
+
+
+class HState:
+    """what the generator knows about the FileSet object"""
+
+    def __init__(self):
+        self.base, self.files = 1, []      # file = [name, base, size, content|None, infos(list of accepted), cap]
+
+    def add(self, name, size, content, cap=0, base=-1):
+        b = self.base if base < 0 else base
+        ecap = max(cap, size)
+        f = [name, b, size if content is None else len(content), content, [], ecap]
+        self.files.append(f)
+        self.base = b + ecap + 1
+        return f
+
+    def info(self, f, inf):
+        if not f[4] or (f[4][-1][0] < inf[0] and inf[0] < f[2]):
+            f[4].append(inf)
+
+    def reload(self, other):
+        self.base, self.files = other.base, [list(f[:4]) + [list(f[4]), 0] for f in other.files]
+
+    def expect(self, p):
+        if p != 0:
+            for (name, b, size, content, infos, _) in self.files:
+                if b <= p <= b + size:
+                    off = p - b
+                    fn, l, c = adjusted_pos(name, content, infos, off)
+                    rl, rc = raw_pos(content, off)
+                    return "%s@%d:%d:%d~%s@%d:%d:%d" % (fn, off, l, c, name, off, rl, rc)
+        return "-~-"
+
+
+def fmt_infos(infos):
+    return "/".join("%d:%s:%d:%d" % i for i in infos) or "-"
+
+
+def spec_of(name, base, size, cap, content, infos):
+    return "%s+%d+%d+%d+%s+%s" % (name, base, size, cap, "~" if content is None else hx(content), fmt_infos(infos))
+
+
+def gen_directive_content(rng):
+    """source text with //line and /*line*/ directives; returns (content, infos the scanner must register)"""
+    eol = b"\r\n" if rng.random() < 0.15 else b"\n"
+    out, found = b"", []
+    code = [b"x := 1", b"println(2)", b"\tpanic(\"boom\")", b"func main {", b"}", b"", b"// plain comment", b"y := \"s\" // c"]
+    n = rng.randrange(2, 12)
+    for i in range(n):
+        r = rng.random()
+        last = (i == n - 1)
+        if r < 0.25:
+            fn, l = rng.choice(INFO_NAMES), rng.choice([1, 7, 100, 12345])
+            c = rng.choice([None, None, 1, 3, 40])
+            text = b"//line %s:%d" % (fn.encode(), l) + (b":%d" % c if c else b"")
+            term = b"" if last and rng.random() < 0.3 else eol
+            out += text + term
+            found.append((len(out), fn, l, c or 0))
+        elif r < 0.40:
+            fn, l, c = rng.choice(INFO_NAMES), rng.choice([1, 9, 500]), rng.choice([1, 2, 17])
+            pre = rng.choice([b"", b"x := 1; ", b"\t"])
+            out += pre + b"/*line %s:%d:%d*/" % (fn.encode(), l, c)
+            found.append((len(out), fn, l, c))
+            out += rng.choice([b"y := 2", b"", b"println(3)"]) + eol
+        elif r < 0.50:
+            # look-alikes that are NOT directives
+            out += rng.choice([b"// line a.wa:3", b"x := 1 //line a.wa:3", b"//line a.wa:0", b"//line nocolon", b"//line a.wa:x", b"//lines a.wa:3"]) + eol
+        else:
+            out += rng.choice(code) + eol
+    return out, found
+
+
+def gen_H(ctx):
+    """-> list of (op line, expected answers per q step as list of lists, tags)"""
+    rng = ctx.rng
+    res = []
+    n = 160 if ctx.tier == "quick" else 2500
+
+    def qstep(st, steps, exp, every=True):
+        hi = st.base + 1
+        ps = list(range(0, hi + 1)) if hi <= 260 else sorted(set([0, hi] + [rng.randrange(0, hi) for _ in range(200)] +
+                                                                  [b + d for f in st.files for b in (f[1], f[1] + f[2]) for d in (-1, 0, 1) if b + d >= 0]))
+        rng.shuffle(ps)
+        steps.append("q," + ".".join(map(str, ps)))
+        exp.append([(p, st.expect(p)) for p in ps])
+
+    for it in range(n):
+        kind = ["reload", "scan", "api-infos", "mixed"][it % 4]
+        st, steps, exp = HState(), [], []
+        if kind in ("reload", "mixed"):
+            # first generation of the object: files, lookups (fills the cache) ...
+            for _ in range(rng.choice([1, 1, 2, 3])):
+                c = gen_content(rng, rng.choice(["lines", "trailing", "notrailing", "crlf", "onlynl"]), 60)
+                name = rng.choice(HNAMES)
+                f = st.add(name, len(c), c)
+                steps.append("a," + spec_of(name, -1, len(c), 0, c, []))
+            # a lookup inside a random file so that the cache holds it
+            f = rng.choice(st.files)
+            p = f[1] + rng.randrange(0, f[2] + 1)
+            steps.append("q,%d" % p); exp.append([(p, st.expect(p))])
+            # ... then one or two reloads of the SAME object from other sets whose files occupy the same Pos ranges
+            for _ in range(rng.choice([1, 1, 2])):
+                other = HState()
+                specs = []
+                for _ in range(rng.choice([1, 1, 2, 3])):
+                    c = gen_content(rng, rng.choice(["lines", "trailing", "notrailing", "nonl", "onlynl"]), 60)
+                    name = rng.choice(HNAMES)
+                    infos = []
+                    g = other.add(name, len(c), c)
+                    if kind == "mixed" and c and rng.random() < 0.6:
+                        for o in sorted(set(rng.randrange(0, len(c)) for _ in range(rng.randrange(1, 4)))):
+                            inf = (o, rng.choice(INFO_NAMES), rng.choice([1, 50]), rng.choice([0, 1, 4]))
+                            infos.append(inf); other.info(g, inf)
+                    specs.append(spec_of(name, -1, len(c), 0, c, infos))
+                steps.append("r," + "|".join(specs))
+                st.reload(other)
+                qstep(st, steps, exp)
+                if rng.random() < 0.4:
+                    steps.append("j"); st.reload(st)
+                    qstep(st, steps, exp)
+            if rng.random() < 0.5:
+                c = gen_content(rng, "lines", 40)
+                name = rng.choice(HNAMES)
+                st.add(name, len(c), c)
+                steps.append("a," + spec_of(name, -1, len(c), 0, c, []))
+                qstep(st, steps, exp)
+        elif kind == "scan":
+            for _ in range(rng.choice([1, 1, 2])):
+                c, found = gen_directive_content(rng)
+                name = rng.choice(HNAMES)
+                f = st.add(name, len(c), c if c else None)
+                for inf in found:
+                    st.info(f, inf)
+                steps.append("s," + spec_of(name, -1, len(c), 0, c, f[4]))
+            qstep(st, steps, exp)
+            steps.append("j"); st.reload(st)
+            qstep(st, steps, exp)
+        else:
+            c = gen_content(rng, rng.choice(["lines", "trailing", "notrailing"]), 80)
+            name = rng.choice(HNAMES)
+            f = st.add(name, len(c), c)
+            infos = []
+            for _ in range(rng.randrange(1, 6)):
+                inf = (rng.randrange(0, len(c) + 3), rng.choice(INFO_NAMES), rng.choice([1, 3, 1000]), rng.choice([0, 0, 1, 9]))
+                infos.append(inf); st.info(f, inf)          # some are rejected (not increasing / beyond the size)
+            steps.append("a," + spec_of(name, -1, len(c), 0, c, infos))
+            qstep(st, steps, exp)
+            inf = (rng.randrange(0, len(c) + 2), rng.choice(INFO_NAMES), 77, rng.choice([0, 2]))
+            steps.append("i,0,%d:%s:%d:%d" % inf); st.info(f, inf)
+            qstep(st, steps, exp)
+            steps.append("j"); st.reload(st)
+            qstep(st, steps, exp)
+        res.append(("H " + ";".join(steps), exp, kind))
+    return res
 
 # --------------------------------------------------------------------------- panic programs
 def gen_prog(rng, idx):
@@ -489,6 +687,62 @@ def run(ctx):
             ctx.proof["broken"].append({"theorem": "correspondence C23 model vs token/position.go+serialize.go",
                                         "why": "op %r impl=%r model=%r" % (op[:300], a[:300], b[:300])})
 
+    # --- histories on ONE FileSet object: reload into the same object, //line infos through the scanner and the API
+    hist = gen_H(ctx)
+    hdir_ops = []
+    if os.path.isdir(cdir):
+        for fn in sorted(os.listdir(cdir)):
+            if fn.endswith(".hist"):
+                hdir_ops += [ln for ln in open(os.path.join(cdir, fn)).read().splitlines() if ln.startswith("H ")]
+    hops = [h_[0] for h_ in hist]
+    _, hout, _ = ctx.run_bin(h, input_text="\n".join(hdir_ops + hops) + "\n")
+    himpl = hout.splitlines()
+    himpl += ["<missing>"] * (len(hdir_ops) + len(hops) - len(himpl))
+    dist["H"] = len(hops)
+    dist["H_kinds"] = {}
+    dist["H_positions"] = 0
+    dist["H_adjusted_differs_from_raw"] = 0
+    for (op, exp, kind), r in zip(hist, himpl[len(hdir_ops):]):
+        dist["H_kinds"][kind] = dist["H_kinds"].get(kind, 0) + 1
+        parts = r.split("|")
+        if r.startswith(("PANIC", "JSONERR", "bad-op", "<missing>")) or len(parts) != len(exp):
+            ctx.violation("history:" + r.split()[0][:30], "history %s -> %s" % (op[:300], r[:200]), {"op": op, "impl": r[:1000]})
+            continue
+        steps = op[2:].split(";")
+        qidx = [i_ for i_, s_ in enumerate(steps) if s_.startswith("q,")]
+        for qi, (si, want, got) in enumerate(zip(qidx, exp, parts)):
+            gl = got.split(",")
+            after_reload = any(s_.startswith(("r,", "j")) for s_ in steps[:si])
+            after_j_only = si > 0 and steps[si - 1] == "j"
+            for (p, w), g in zip(want, gl):
+                evaluations += 1
+                dist["H_positions"] += 1
+                if w.split("~")[0] != w.split("~")[1]:
+                    dist["H_adjusted_differs_from_raw"] += 1
+                if g == w:
+                    continue
+                ga, gu = (g.split("~") + ["?"])[:2]
+                wa, wu = w.split("~")
+                replay = {"op": op, "step": si, "pos": p, "impl": g, "want": w}
+                if after_j_only and gu == wu and ga != wa:
+                    ctx.violation("serialize:line-info-lost", "history %s: after FromJson(ToJson()) Position(%d) = %s, before the round trip it was %s "
+                                  "(//line information did not survive serialization)" % (op[:200], p, ga, wa), replay)
+                elif after_reload and kind in ("reload", "mixed"):
+                    ctx.violation("reload:stale-or-wrong-answer", "history %s: after loading another set into the SAME FileSet object, Position(%d) = %s, "
+                                  "the loaded files give %s" % (op[:200], p, g, w), replay)
+                elif gu != wu:
+                    ctx.violation("position:wrong-line-col", "history %s: PositionFor(%d,false) = %s, counting newlines gives %s" % (op[:200], p, gu, wu), replay)
+                else:
+                    ctx.violation("lineinfo:wrong-adjusted-position", "history %s: Position(%d) = %s, the //line directives give %s" % (op[:200], p, ga, wa), replay)
+            nontrivial.add(("H", kind, qi, after_reload, len(want) > 50))
+        if len(samples) < 11 and kind == "scan":
+            samples.append({"op": op[:300], "impl": r[:200]})
+    if m:
+        _, hmo, _ = ctx.run_bin(m, input_text="\n".join(hdir_ops + hops) + "\n")
+        for i, op, a, b in ctx.diff_lines(hdir_ops + hops, himpl, hmo.splitlines())[:20]:
+            ctx.proof["broken"].append({"theorem": "correspondence C23 (histories) model vs token/position.go+serialize.go+scanner line directives",
+                                        "why": "op %r impl=%r model=%r" % (op[:400], a[:300], b[:300])})
+
     # --- harness-side sweeps (oracle only): every offset of larger contents, before/after JSON
     wops, wmeta = [], []
     nw = 30 if ctx.tier == "quick" else 400
@@ -565,7 +819,7 @@ def run(ctx):
         "swept_offsets_in_harness": swept,
     }
     return ctx.finish("proof", cov,
-                      assumptions=["no //line infos (File.infos empty)", "Go int arithmetic does not overflow (bases, sizes < 2^62)",
+                      assumptions=["//line infos: semantics of the adjusted position decided by correspondence + python oracle, not by a theorem; directive parsing (scanner) exercised only", "Go int arithmetic does not overflow (bases, sizes < 2^62)",
                                    "file names are valid UTF-8", "encoding/json round-trips ints, strings and null/[] slices (exercised, not modelled)",
                                    "offset = size follows the proved EOF rule (continues the last byte's line), not the counting rule"],
                       trusted_base=["hand-written Lean model WaVerif/Model/C23.lean tied by the correspondence run (harness/c23)",
